@@ -17,7 +17,10 @@ Lists == UNION { [1..k -> Strs] : k \in 0..MaxN }
 \* special cases beyond the small scope: many empty strings (count above 255), long strings
 EmptyN(k) == Mat([i \in 1..k |-> << >>])
 LongStr(l) == Mat([i \in 1..l |-> (i * 7) % 256])
-Specials == IF Extra THEN { EmptyN(300), EmptyN(256), EmptyN(255), <<LongStr(300), << >>, LongStr(2)>>, <<LongStr(4000)>> } ELSE {}
+\* ... and arrays whose recorded total reaches the end of the 16-bit range (65533, 65534, 65535 bytes): index arithmetic that wraps
+Specials == IF Extra THEN { EmptyN(300), EmptyN(256), EmptyN(255), <<LongStr(300), << >>, LongStr(2)>>, <<LongStr(4000)>>,
+                            <<LongStr(65533)>>, <<LongStr(65532)>>, <<LongStr(65531)>>, <<LongStr(32766), LongStr(32765)>>, <<LongStr(255), LongStr(256)>> }
+            ELSE {}
 
 SOp(op, req, wd) == [op |-> op, req |-> req, withdest |-> wd]
 Requests(k) == { r \in {0, k - 1, k, k + 1, k + 5} : r >= 0 /\ r <= 8 }
